@@ -135,3 +135,10 @@ Example immutable_example :
   i_fields (run_stores [(SCache, 0, 99); (SSingleton, 3, 4)] (mkinst (fun g => g + 1) None)) 5 = 6 /\
   forallb skind_allowed [SInit; SCache; SSingleton] = true /\ skind_allowed SOther = false.
 Proof. repeat split; vm_compute; reflexivity. Qed.
+
+(* the callee-first Gauss-Seidel search finds a post-fixpoint of the same table as the round-based search *)
+Example solve_gs_example :
+  consistent 4 ex_fdefs (solve_gs 4 ex_fdefs [1; 3; 0; 2; 4] 10 (bottom ex_fdefs)) = true /\
+  map input_clean (solve_gs 4 ex_fdefs [1; 3; 0; 2; 4] 10 (bottom ex_fdefs)) = map input_clean ex_summ /\
+  consistent 4 ds_fdefs (solve_gs 4 ds_fdefs [0; 1] 10 (bottom ds_fdefs)) = true.
+Proof. repeat split; vm_compute; reflexivity. Qed.
